@@ -391,6 +391,14 @@ def _mpu_order(prog: Program, ci: ClassInfo) -> List[Instance]:
                 want = [(L, "nextPartId")] if branch == "append" else [(R, "nextPartId")]
                 ok = sides == want
                 out.append(Instance("R-MPU", cid, OK if ok else BAD, f"next part id from {'left' if branch == 'append' else 'right'}" if ok else f"partId in the {branch} branch must be {want[0][0]}.nextPartId, got `{short(a)}`", merge.where(a)))
+    # every result of merge is a freshly combined chunk: returning an operand as is drops the
+    # other operand's observed log / data / parts
+    for r in (x for x in walk_own(merge.node) if isinstance(x, ast.Return)):
+        v = r.value
+        is_ctor = isinstance(v, ast.Call) and call_name(v) == ci.name
+        if not is_ctor:
+            out.append(Instance("R-MPU", f"{merge.qual}#ORDER:return:{short(v, 30)}", BAD,
+                                f"`{short(r)}` returns without combining both operands: the other side's observed log (and data/parts) is lost", merge.where(r)))
     if n_ctor < 2:
         out.append(Instance("R-MPU", f"{merge.qual}#ORDER", UNDET, f"expected two MPUChunk(...) constructions in merge, found {n_ctor}", merge.where()))
     # the flush of the left side receives the right side's left_data
@@ -1006,3 +1014,51 @@ def _append_order(name: str, fi: FuncInfo) -> str:
                 return "ASC"  # level 0 (full resolution) first
             return "?"
     return "?"
+
+
+def rule_filesink(prog: Program) -> List[Instance]:
+    """C18: MPUFileSink.finalise = first part becomes the destination, the rest are appended in the
+    given order and unlinked; an append-mode open of the destination is only sound after the
+    destination was replaced by the first part."""
+    out: List[Instance] = []
+    f = prog.func("cog._mpu_fs:MPUFileSink.finalise")
+    parts_p = f.param_names()[1]
+    org = Origins(f)
+    # first / rest split of the parts list in the given order
+    split = None
+    for n in walk_own(f.node):
+        if isinstance(n, ast.Assign) and isinstance(n.targets[0], ast.Tuple) and short(n.value) == parts_p and len(n.targets[0].elts) == 2 and isinstance(n.targets[0].elts[1], ast.Starred):
+            split = (short(n.targets[0].elts[0]), short(n.targets[0].elts[1].value))
+    opens = [n for n in walk_own(f.node) if isinstance(n, ast.Call) and call_name(n) == "open" and len(n.args) >= 2 and isinstance(n.args[1], ast.Constant) and "a" in str(n.args[1].value)]
+    replaced = [n for n in walk_own(f.node) if isinstance(n, ast.Call) and call_name(n) in ("rename", "replace", "move", "copyfile", "copy")]
+    if opens:
+        first_open = min(o.lineno for o in opens)
+        ok = split is not None and any(r.lineno < first_open and split[0] in org.deps_names(r) for r in replaced)
+        out.append(Instance("R-MPU", f"{f.qual}#SINK:append-after-replace", OK if ok else BAD,
+                            "destination is opened for append only after the first part was moved onto it" if ok
+                            else "destination is opened in append mode without first being replaced by the first part: bytes of a pre-existing destination survive in front of the new data", f.where(opens[0])))
+    else:
+        out.append(Instance("R-MPU", f"{f.qual}#SINK:append-after-replace", INFO, "no append-mode open", f.where(), nontrivial=False))
+    # the loop walks the rest in the given order (no sorted/reversed) and unlinks inside the loop
+    loops = [n for n in walk_own(f.node) if isinstance(n, ast.For)]
+    okl = False
+    for lp in loops:
+        it = lp.iter
+        if split is not None and isinstance(it, ast.Name) and it.id in (split[1], parts_p):
+            writes = any(isinstance(x, ast.Call) and call_name(x) == "write" for x in ast.walk(lp))
+            unl = any(isinstance(x, ast.Call) and call_name(x) == "unlink" for x in ast.walk(lp))
+            okl = writes and unl
+    out.append(Instance("R-MPU", f"{f.qual}#SINK:in-order", OK if okl else BAD,
+                        "remaining parts are appended in the order given and unlinked inside the loop" if okl else "parts are not appended in the given order (or not removed) by the finalise loop", f.where()))
+    # __call__: the receipt names the part number and the path actually written
+    c = prog.func("cog._mpu_fs:MPUFileSink.__call__")
+    pp = c.param_names()
+    rets = [n.value for n in walk_own(c.node) if isinstance(n, ast.Return) and isinstance(n.value, ast.Dict)]
+    ok = False
+    if rets:
+        d = {k.value: v for k, v in zip(rets[0].keys, rets[0].values) if isinstance(k, ast.Constant)}
+        opened = [n.args[0] for n in walk_own(c.node) if isinstance(n, ast.Call) and call_name(n) == "open" and n.args]
+        part_p = [x for x in pp if x != "self"][0]
+        ok = "PartNumber" in d and short(d["PartNumber"]) == part_p and "Path" in d and bool(opened) and names_in(opened[0]) <= names_in(d["Path"])
+    out.append(Instance("R-MPU", f"{c.qual}#SINK:receipt", OK if ok else BAD, "receipt carries the part number and the path that was written" if ok else "receipt does not name the part number / the file that was written", c.where()))
+    return out
